@@ -334,10 +334,8 @@ func c10SameChecks(e *Env, s *Sched) {
 	ok := len(a) == 1 && len(b) == 1
 	if ok {
 		ok = false
-		for _, l := range e.DCS(b[0]) {
-			if l.Kind == "cmp" && l.Op == token.EQL && ir.IsNilConst(l.Y) && ir.Resolve(l.X) == ssa.Value(a[0].(*ssa.Call)) {
-				ok = true
-			}
+		if ac, isC := a[0].(*ssa.Call); isC {
+			ok = e.onlyAfterNil(ac, b[0])
 		}
 	}
 	r.Check(ok, "NewExecutionGraphForRetry: setupRetry() only after setup()==nil", e.Pos(fn.Pos()),
@@ -359,9 +357,9 @@ func c10SameChecks(e *Env, s *Sched) {
 				continue
 			}
 			okb := false
-			for _, l := range e.DCS(rt) {
-				if l.Kind == "cmp" && l.Op == token.EQL && ir.IsNilConst(l.Y) && len(a) == 1 && ir.Resolve(l.X) == ssa.Value(a[0].(*ssa.Call)) {
-					okb = true
+			if len(a) == 1 {
+				if ac, isC := a[0].(*ssa.Call); isC {
+					okb = e.onlyAfterNil(ac, rt)
 				}
 			}
 			r.Check(okb, "NewExecutionGraphForRetry: a graph is returned only when setup() succeeded", e.InstrPos(rt), "a graph with dangling dependencies or a cycle is admitted for retry")
@@ -713,4 +711,20 @@ func c08PersistedFields(e *Env, s *Sched) {
 			r.Check(okf, "ToNode: NodeState."+name+" restored from the recorded "+name, e.InstrPos(st), "the restored "+name+" does not come from the recorded "+name)
 		}
 	}
+}
+
+// onlyAfterNil: the target is executed only when the (error) result of the call was
+// nil: `call == nil` dominates it, or - for the accumulate-the-first-error style
+// (`err := a(); if err == nil { err = b() }; if err != nil { return }`) - the target
+// cannot be reached from the call once the result is assumed non-nil.
+func (e *Env) onlyAfterNil(call *ssa.Call, target ssa.Instruction) bool {
+	for _, l := range e.DCS(target) {
+		if l.Kind == "cmp" && l.Op == token.EQL && ir.IsNilConst(l.Y) && ir.Resolve(l.X) == ssa.Value(call) {
+			return true
+		}
+	}
+	if call.Parent() != target.Parent() || !ir.Precedes(call, target) {
+		return false
+	}
+	return !ir.ReachableAssuming(call, target, map[ssa.Value]bool{call: true})
 }
